@@ -278,7 +278,7 @@ Proof.
   assert (Hnf : tstate_eqb s S_finish = false) by (destruct s; cbn in Ees |- *; congruence).
   assert (Hvf : tstate_eqb sv0 S_finish = false) by (destruct sv0; cbn in Ht |- *; congruence).
   destruct (validate_utf8 t1 && negb (nbytes l1 =? 0));
-    rewrite ?Hst, ?Hsv, ?Hst0, ?Hsv0, Hnf, Hvf in Ha; cbn [negb andb err set_err] in Ha; discriminate.
+    rewrite ?Hst, ?Hsv, ?Hst0, ?Hsv0, Hnf, Hvf in Ha; cbn [negb andb] in Ha; rewrite ?orb_true_r in Ha; cbn [negb andb err set_err] in Ha; discriminate.
 Qed.
 
 Lemma parse_ex_hs t a t' r : wf_tok t -> hs_ok t -> Forall (fun b => b <> 0) a \/ r = None -> parse_ex sb t a = PR t' r -> hs_ok t'.
